@@ -370,8 +370,14 @@ func (eng *Engine) compileClosedEx(ax *Axiom, goal bool) (*Term, *Exec, error) {
 		}
 	}
 	if body.Op == "forall" {
-		all := append(append([]*Term{}, bound...), body.Bound...)
-		inner := body.Args[0]
+		// merge the whole prefix of universal quantifiers into one binder, so that the triggers are chosen on the
+		// innermost body and mention every bound variable (a nested quantifier without triggers is left to MBQI)
+		all := append([]*Term{}, bound...)
+		inner := body
+		for inner.Op == "forall" {
+			all = append(all, inner.Bound...)
+			inner = inner.Args[0]
+		}
 		return Forall(all, inner, choosePatterns(all, inner)), ex, nil
 	}
 	return Forall(bound, body, choosePatterns(bound, body)), ex, nil
